@@ -33,7 +33,7 @@ class Inconclusive(Exception):
 
 
 class Clause(object):
-    def __init__(self, name, strategy, run, quick, thorough, rule, exhaustive=None, watchdog=120):
+    def __init__(self, name, strategy, run, quick, thorough, rule, exhaustive=None, watchdog=60):
         self.name = name
         self.strategy = strategy        # callable(tier) -> hypothesis strategy of JSON-able cases
         self.run = run                  # callable(case) -> info dict {"nt":bool,"cls":[..],"out":..}
@@ -84,13 +84,14 @@ class ClauseRunner(object):
         self.predicates = predicates
         self.hashseed = hashseed
         self.stats = {"evaluations": 0, "nontrivial": 0, "excluded_known": 0, "excluded_bucket": 0,
-                      "classes": {}, "exhaustive": None, "max_line_events": 0}
+                      "classes": {}, "exhaustive": None, "max_line_events": 0, "inconclusive": 0}
         self.nt_digests = set()
         self.samples = []
         self.failures = []      # list of dict(bucket, case, msg, details)
         self.excluded = set()
         self.errors = []
         self.last_fail = None
+        self.slowest_case = None
 
     # -- one evaluation ------------------------------------------------------------
     def evaluate(self, case, raising=True):
@@ -102,8 +103,13 @@ class ClauseRunner(object):
                 return None
         old = signal.signal(signal.SIGALRM, _alarm)
         signal.alarm(self.clause.watchdog)
+        t_start = time.time()
         try:
             info = self.clause.run(case) or {}
+        except Inconclusive:
+            # a wall-clock limit was hit: neither a violation nor a pass; counted, never shrunk
+            st["inconclusive"] = st.get("inconclusive", 0) + 1
+            return None
         except Fail as f:
             if f.sub in self.excluded:
                 st["excluded_bucket"] += 1
@@ -115,6 +121,10 @@ class ClauseRunner(object):
         finally:
             signal.alarm(0)
             signal.signal(signal.SIGALRM, old)
+            dt = time.time() - t_start
+            if dt > st.get("slowest_case_s", 0):
+                st["slowest_case_s"] = round(dt, 3)
+                self.slowest_case = case
         for c in info.get("cls", ()):
             st["classes"][c] = st["classes"].get(c, 0) + 1
         if "events" in info:
@@ -196,5 +206,5 @@ class ClauseRunner(object):
 
     def result(self):
         return {"clause": self.clause.name, "stats": self.stats, "nt_digests": sorted(self.nt_digests),
-                "samples": self.samples, "failures": self.failures, "errors": self.errors,
+                "samples": self.samples, "slowest_case": self.slowest_case, "failures": self.failures, "errors": self.errors,
                 "rule": self.clause.rule}
